@@ -184,9 +184,10 @@ HornerR(a, N, k, i, acc) ==
   ELSE HornerR(a, N, k, i - 1, Add(Mul(acc, N), Shl(a[i], k * (Len(a) - i))))
 HornerNum(a, N, k) == IF a = <<>> THEN Zero ELSE HornerR(a, N, k, Len(a) - 1, a[Len(a)])
 \* value of the polynomial with coefficients a[i] / 10^s at N / 2^k, as a Rat
-PolyValue(a, s, N, k) ==
+\* (ten = 10^s is kept with the entry so that it is not recomputed for every evaluation)
+PolyValue(a, ten, N, k) ==
   IF a = <<>> THEN RZero
-  ELSE R(HornerNum(a, N, k), Mk(FALSE, NShl(NPow(<<10>>, s), k * (Len(a) - 1))))
+  ELSE R(HornerNum(a, N, k), Shl(ten, k * (Len(a) - 1)))
 
 \* (j+1)(j+2)...(j+m) as a BigInt
 RECURSIVE RisingR(_, _, _)
@@ -216,7 +217,7 @@ Prepared(e) ==
       \* NCOEFF = 1 still has the linear term 60 DT F0
       cc == IF n = 1 THEN <<c[1], Zero>> ELSE c
   IN [tmid |-> e.tmid, span |-> e.span, rphase |-> e.rphase, f0 |-> e.f0, ncoeff |-> n, c |-> e.c,
-      s |-> cs.s,
+      s |-> cs.s, ten |-> Pow10(cs.s),
       a |-> [i \in 1..Len(cc) |-> IF i = 1 THEN Add(cc[1], rph) ELSE IF i = 2 THEN Add(cc[2], lin) ELSE cc[i]],
       \* the coefficients without RPHASE and 60 F0 (for error budgets)
       small |-> AbsCoeffs(cc),
@@ -225,20 +226,38 @@ Prepared(e) ==
 \* DT in minutes as a dyadic, from a dyadic number of days
 MinutesOfDays(d) == Dy(MulInt(d.m, 45), d.e + 5)              \* 1440 = 45 * 2^5
 \* PHASE at DT = dt (dyadic minutes)
-Predict(p, dt) == LET f == DyFrac(dt) IN PolyValue(p.a, p.s, f.N, f.k)
+Predict(p, dt) == LET f == DyFrac(dt) IN PolyValue(p.a, p.ten, f.N, f.k)
 \* d^m PHASE / dt^m with t in seconds: cycles / s^m
 Deriv(p, m, dt) ==
   LET f == DyFrac(dt)
-      v == PolyValue(DerivCoeffs(p.a, m), p.s, f.N, f.k)
+      v == PolyValue(DerivCoeffs(p.a, m), p.ten, f.N, f.k)
   IN R(v.p, Mul(v.q, Pow(FromInt(60), m)))
 \* SUM_i |coefficient of the m-th derivative| |DT|^i: the scale against which the
 \* rounding of a floating-point evaluation is measured
 DerivScale(p, m, dt) ==
   LET f == DyFrac(dt)
-      v == PolyValue(AbsCoeffs(DerivCoeffs(p.a, m)), p.s, Abs(f.N), f.k)
+      v == PolyValue(AbsCoeffs(DerivCoeffs(p.a, m)), p.ten, Abs(f.N), f.k)
   IN R(v.p, Mul(v.q, Pow(FromInt(60), m)))
-SmallScale(p, dt) == LET f == DyFrac(dt) IN PolyValue(p.small, p.s, Abs(f.N), f.k)
-LinearTerm(p, dt) == LET f == DyFrac(dt) IN R(Abs(Mul(p.lin, f.N)), Mk(FALSE, NShl(NPow(<<10>>, p.s), f.k)))
+SmallScale(p, dt) == LET f == DyFrac(dt) IN PolyValue(p.small, p.ten, Abs(f.N), f.k)
+LinearTerm(p, dt) == LET f == DyFrac(dt) IN R(Abs(Mul(p.lin, f.N)), Shl(p.ten, f.k))
+
+(***************************************************************************)
+(* Judging an observed double against an exact value without division:     *)
+(* the values above have very long denominators q; |obs - p/q| is kept as  *)
+(* L / (2^g q) and compared by multiplying through.                        *)
+(***************************************************************************)
+ErrOf(obs, v) ==
+  LET g == IF obs.e < 0 THEN -obs.e ELSE 0
+      mo == IF obs.e < 0 THEN obs.m ELSE Shl(obs.m, obs.e)
+  IN [L |-> Abs(Sub(Mul(mo, v.q), Shl(v.p, g))), g |-> g, q |-> v.q]
+\* L / (2^g q)  <=  t + wn 2^ws / q     (t a short Rat >= 0, wn a BigInt >= 0)
+ErrWithin(err, t, wn, ws) ==
+  LET lhs == Mul(err.L, t.q)
+      a == Mul(err.q, t.p)
+      b == Mul(wn, t.q)
+  IN IF ws >= 0 THEN Le(lhs, Shl(Add(a, Shl(b, ws)), err.g))
+     ELSE Le(Shl(lhs, -ws), Shl(Add(Shl(a, -ws), b), err.g))
+ErrRat(err) == R(err.L, Shl(err.q, err.g))
 
 (***************************************************************************)
 (* Spans (exact rationals, MJD days) and their merge                       *)
